@@ -202,15 +202,18 @@ ConnRestart ==
          /\ down' = down \ {v}
     /\ UNCHANGED <<hub, g, xw, mx>> /\ bad' = {}
 
-\* a pass of relayMinterEvents whose cursor is lost: the process dies after the hub committed the claims and before the
-\* status file is written; the old file survives, the process is down until it is started again (ConnRestart)
-CrashOf(v) ==
+\* a pass of relayMinterEvents that is killed while it hands its claims to the hub ("after": the hub has committed them,
+\* "before": they never arrived).  The status file keeps what the pass had persisted: the leading blocks without events.
+\* The process is down until it is started again (ConnRestart).
+CrashOf(v, when) ==
     LET evs  == ScanClaims(mx, cn[v])
         acts == [i \in DOMAIN evs |-> [k |-> "Claim", i |-> 0, by |-> Orch(v), chain |-> MC, ev |-> Numbered(cn[v], evs)[i]]]
+        firstEv == Min({e.eh : e \in RangeOf(evs)})
     IN /\ cn[v].blk < mx.h /\ Len(evs) \in 1..10 /\ v \notin down
-       /\ Hidden(<<TxOf(v, acts)>>, [k |-> "ConnCrashScan", i |-> 0, by |-> v])
+       /\ Hidden(IF when = "after" THEN <<TxOf(v, acts)>> ELSE <<>>, [k |-> "ConnCrashScan", i |-> 0, by |-> v, when |-> when])
+       /\ cn' = [cn EXCEPT ![v].blk = firstEv - 1]
        /\ down' = down \cup {v}
-ConnCrashScan == hub.inb /\ (\E v \in Vals : CrashOf(v)) /\ UNCHANGED <<mx, xw, cn>>
+ConnCrashScan == hub.inb /\ (\E v \in Vals, when \in {"after", "before"} : CrashOf(v, when)) /\ UNCHANGED <<mx, xw>>
 
 HubOnly(A) == A /\ UNCHANGED <<mx, cn, down>>
 
